@@ -121,6 +121,25 @@ func streamMac(c *ctx) {
 			t[bit/8] ^= 1 << (bit % 8)
 			muts = append(muts, t)
 		}
+		// the tag followed by n more octets (zeros or arbitrary) for n at and around the multiples of 256, and the tag cut
+		// by 1 .. all octets: oracle only (the model comparison is made on the mutations above)
+		if idx%8 == 1 {
+			for _, n := range []int{1, 2, 8, 16, 255, 256, 257, 264, 511, 512, 513, 768, 1024, 65536} {
+				for _, fill := range []byte{0, 0x5a} {
+					ext := append(append([]byte{}, tag...), bytes.Repeat([]byte{fill}, n)...)
+					c.eval()
+					if m.MACVerify(msg, ext) == nil {
+						c.fail(failure{Op: "mac", What: "verification accepts the tag followed by more octets", Input: line + fmt.Sprintf(" presented=tag || %d x %02x", n, fill), Observed: "accepted", Expected: "refused", Case: line, Theorem: "C11_verify_exact"})
+					}
+				}
+			}
+			for cut := 1; cut <= len(tag); cut++ {
+				c.eval()
+				if m.MACVerify(msg, tag[:len(tag)-cut]) == nil {
+					c.fail(failure{Op: "mac", What: "verification accepts a truncated tag", Input: line + fmt.Sprintf(" presented=tag without its last %d octets (%x)", cut, tag[:len(tag)-cut]), Observed: "accepted", Expected: "refused", Case: line, Theorem: "C11_verify_exact"})
+				}
+			}
+		}
 		for mi, t := range muts {
 			var verr error
 			p, pm := catch(func() { verr = m.MACVerify(msg, t) })
